@@ -130,6 +130,28 @@ def serveReq (P : Parsers) (schemes : List (List Char × List (List Char × List
     (lk : Nat → Option TargetM) (alive : Nat → Bool) (remote : List Char) (r : Req) : Result :=
   serveHTTP P lk alive remote (headerValues hXFF r.headers) (fun t => authorizedReq t.scheme schemes r)
 
+/-! ## `AccessDeniedHTTP` as written
+
+The model's `accessDeniedHTTP` walks `xffElems` (every line split at commas). The source joins the lines first. -/
+
+/-- `strings.Join(lines, ",")` -/
+def joinComma : List (List Char) → List Char
+  | [] => []
+  | [l] => l
+  | l :: ls => l ++ ',' :: joinComma ls
+
+/-- `AccessDeniedHTTP` the way the source reads: the peer, then — if the lines of `X-Forwarded-For` joined with
+commas are not the empty text — every piece of that text between commas. -/
+def accessDeniedHTTPLit (P : Parsers) (r : Rules) (remote : List Char) (xff : List (List Char)) : Bool :=
+  if r.isEmpty then false else
+  match P.splitHostPort remote with
+  | none => true
+  | some host =>
+    if denyByIP r (P.parseIP (stripZone host)) then true
+    else
+      let joined := joinComma xff
+      if joined.isEmpty then false else xffDenied P r host (splitOn ',' joined)
+
 /-! ## Header keys on the wire
 
 net/http's server stores a header line under `textproto.CanonicalMIMEHeaderKey` of the name the client wrote. -/
